@@ -188,7 +188,10 @@ def apply_op(cl, nodes, op):
         nodes[op[1]] << nodes[op[2]]
     elif k == "Extend":
         F.queue = [_fq(f) for f in op[3]]
-        nodes[op[1]].extend([nodes[c] for c in op[2]])
+        items = [nodes[c] for c in op[2]]
+        if len(op) > 4 and nodes[op[4]] is not None and [id(c) for c in nodes[op[4]].children] == [id(c) for c in items]:
+            items = nodes[op[4]]        # the node itself as the iterable of its children
+        nodes[op[1]].extend(items)
     elif k == "DelItem":
         F.queue = [_fq(op[3])]
         del nodes[op[1]][op[2]]
@@ -397,7 +400,7 @@ def _cop(op):
     if k == "DelItem":
         return f"DelItem {op[1]} {cstr(op[2])} {_FT[op[3]]}"
     if k == "Sort":
-        return f"Sort {op[1]} {clist(str(x) for x in op[2])} {cbool(op[3])}"
+        return f"Sort {op[1]} {clist('None' if x is None else f'(Some {x})' for x in op[2])} {cbool(op[3])}"
     if k == "SetSep":
         return f"SetSep {op[1]} {cstr(op[2])}"
     raise ValueError(k)
@@ -649,8 +652,15 @@ def gen_case(rng, prop, cls=None, fault_rate=0.1, invalid_rate=0.15, nmax=8, max
             cands = [x for x in range(live) if invalid or x not in bad]
             rng.shuffle(cands)
             cs = cands[: rng.randint(0, min(4, len(cands)))]
+            via = None
+            donors = [q for q in range(live) if q != p and len(sh.kids[q]) >= 2 and (invalid or not (set(sh.kids[q]) & bad))]
+            if donors and rng.random() < 0.35:
+                # p.extend(q): the donor NODE itself is the iterable (BaseNode.__iter__ yields a snapshot of its
+                # children); every child of q moves to p while q's list is being emptied
+                via = rng.choice(donors)
+                cs = list(sh.kids[via])
             fts = [fault() for _ in cs]
-            ops.append(["Extend", p, cs, fts])
+            ops.append(["Extend", p, cs, fts] + ([via] if via is not None else []))
             for c, f in zip(cs, fts):
                 if f != "none" or not sh.set_parent(c, p):
                     break
@@ -665,7 +675,15 @@ def gen_case(rng, prop, cls=None, fault_rate=0.1, invalid_rate=0.15, nmax=8, max
                     sh.set_parent(hit[0], None)
         elif r < 0.97:
             p = rng.randrange(live)
+            wide = [q for q in range(live) if len(sh.kids[q]) >= 3]
+            if wide and rng.random() < 0.6:
+                p = rng.choice(wide)
             keys = [rng.randint(0, 3) for _ in range(n)]
+            if rng.random() < 0.3:
+                # a key that cannot be compared (None next to ints): list.sort raises TypeError part-way;
+                # BaseNode.sort works on a copy, so the children must stay exactly as they were
+                tgt = sh.kids[p][-1] if (sh.kids[p] and rng.random() < 0.7) else rng.randrange(n)
+                keys[tgt] = None
             ops.append(["Sort", p, keys, rng.random() < 0.4])
             # shadow order is only used for bias; keep as is
         elif cls == "Node":
@@ -762,6 +780,8 @@ def _all_ops(n, faults):
         ops.append(["DelChildren", p])
         ops.append(["Sort", p, list(range(n, 0, -1)), False])
         ops.append(["Sort", p, [0] * n, True])
+        ops.append(["Sort", p, list(range(n - 1, 0, -1)) + [None], False])
+        ops.append(["Sort", p, [None] + list(range(n - 1, 0, -1)), True])
         ops.append(["Extend", p, [(p + 1) % n, (p + 2) % n], ["none", "none"]])
     return ops
 
